@@ -165,7 +165,10 @@ LONG_VALUES = [LONG_WORD + '1', LONG_WORD + '2', LONG_PHRASE + 'One', LONG_PHRAS
 # values with characters outside ASCII: precomposed / combining accents, and compatibility characters whose normal forms
 # are forbidden ASCII characters (ellipsis -> '...', fullwidth colon / solidus / full stop / question mark, ligature fi)
 UNICODE_VALUES = ['caf\u00e9', 'cafe\u0301', 'To-be-continued\u2026', 'a\uff1ab', 'c\uff0fd', 'e\uff0ef', 'wh\uff1f', 'of\ufb01ce',
-                  '\u00dcber \u00e4\u00f6', '\u4e2d\u6587']
+                  '\u00dcber \u00e4\u00f6', '\u4e2d\u6587',
+                  # characters whose *canonical* (NFC/NFD) form is another character (singleton decompositions): Greek question
+                  # mark -> ';', Greek varia -> '`', Kelvin sign -> 'K', Ohm sign, Angstrom sign, Greek ano teleia -> middle dot
+                  '\u03c4\u03b9\u037e', 'a\u1fefb', '\u212aelvin', '\u2126hm', '\u212bngstrom', 'x\u0387y']
 
 
 class TreeGen:
@@ -277,7 +280,7 @@ class TreeGen:
             if len(secs) >= 2:
                 a, b = rng.sample(range(len(secs)), 2)
                 v1, v2 = rng.choice([(LONG_WORD + '1', LONG_WORD + '2'), ('caf\u00e9', 'cafe\u0301'), ('a\uff1ab', 'a:b'),
-                                     ('e\uff0ef', 'e.f')])
+                                     ('e\uff0ef', 'e.f'), ('q\u037er', 'q;r'), ('\u212aelvin', 'Kelvin')])
                 if rng.random() < 0.6:
                     secs[a].id, secs[b].id = v1, v2
                 else:
@@ -696,11 +699,13 @@ class DocGen:
         self.pool = collision_pool(template)
         # now and then the first two units get labels / titles that agree in a long prefix, or that are equal up to
         # character normalisation
+        self.fnotes = []       # earlier footnotes (LaTeX text, markers): some later footnotes repeat one word for word ("Ibid.")
         self.pair = None
         if rng.random() < 0.12:
             self.pair = (rng.choice(['title', 'label', 'both']),
                          rng.choice([(LONG_PHRASE + 'One', LONG_PHRASE + 'Two'), (LONG_WORD + '1', LONG_WORD + '2'),
-                                     ('caf\u00e9', 'cafe\u0301'), ('To be continued\u2026', 'To be continued...')]))
+                                     ('caf\u00e9', 'cafe\u0301'), ('To be continued\u2026', 'To be continued...'),
+                                     ('\u03c4\u03b9 \u03b5\u03af\u03bd\u03b1\u03b9\u037e', 'a\u1fefb c'), ('\u212aelvin scale', 'Kelvin scale')]))
 
     def newtag(self):
         self.tag += 1
@@ -712,9 +717,13 @@ class DocGen:
         for _ in range(rng.choice([0, 1, 1, 2, 3])):
             words = []
             for _ in range(rng.randint(1, 3)):
-                self.mark += 1
-                w = 'MK%d' % self.mark
-                node.kids.append(T(m=self.mark))
+                if self.mark > 2 and rng.random() < 0.06:
+                    mk = rng.randint(1, self.mark)       # the same word again: text need not be unique to be kept
+                else:
+                    self.mark += 1
+                    mk = self.mark
+                w = 'MK%d' % mk
+                node.kids.append(T(m=mk))
                 r = rng.random()
                 if r < 0.15:
                     w = '\\emph{%s}' % w
@@ -726,7 +735,12 @@ class DocGen:
                     sym = rng.choice(['S', 'dag', 'ldots', 'P'])
                     node.kids.append(T(tag=self.newtag(), level=1001, name=sym, uni=True))
                     words.append('\\%s{}' % sym)
-                if rng.random() < 0.25:
+                if self.fnotes and rng.random() < 0.1:
+                    # a footnote with exactly the wording of an earlier one: a footnote of its own all the same
+                    text, marks = rng.choice(self.fnotes)
+                    node.kids.append(T(tag=self.newtag(), level=1001, foot=True, name='footnote', kids=[T(m=x) for x in marks]))
+                    words.append('\\footnote{%s}' % text)
+                elif rng.random() < 0.25:
                     fk = []
                     fw = []
                     for j in range(rng.randint(1, 2)):
@@ -740,6 +754,8 @@ class DocGen:
                             fw.append('\\footnote{MK%d}' % self.mark)
                     node.kids.append(T(tag=self.newtag(), level=1001, foot=True, name='footnote', kids=fk))
                     words.append('\\footnote{%s}' % ' '.join(fw))
+                    if all(k.is_text() for k in fk):
+                        self.fnotes.append((' '.join(fw), [k.m for k in fk]))
             r = rng.random()
             if r < 0.15:
                 items = []
